@@ -242,7 +242,11 @@ where
         // SAFETY: when we initialized `probability_float`, we checked if `symbol` is out of bounds.
         let left_side = unsafe { pmf.get_unchecked(..symbol) };
         let left_cumulative_float = left_side.iter().copied().sum::<F>();
-        let left_cumulative = (left_cumulative_float * self.scale).as_() + symbol.as_();
+        // Rounding errors can make the product exceed the free weight by a few units (in
+        // particular for `f32` at high `PRECISION`); clamp it so that the CDF stays monotonic.
+        let free_weight = wrapping_pow2::<Probability>(PRECISION).wrapping_sub(&pmf.len().as_());
+        let left_cumulative =
+            core::cmp::min((left_cumulative_float * self.scale).as_(), free_weight) + symbol.as_();
 
         // It may seem easier to calculate `probability` directly from `probability_float` but
         // this could pick up different rounding errors, breaking guarantees of `EncoderModel`.
@@ -252,7 +256,9 @@ where
             // lead to an inaccessible last quantile due to rounding errors.
             wrapping_pow2(PRECISION)
         } else {
-            (right_cumulative_float * self.scale).as_() + symbol.as_() + Probability::one()
+            core::cmp::min((right_cumulative_float * self.scale).as_(), free_weight)
+                + symbol.as_()
+                + Probability::one()
         };
         let probability = right_cumulative
             .wrapping_sub(&left_cumulative)
@@ -305,11 +311,18 @@ where
 
         // Then search for the correct `symbol` using the same float-to-int conversions as in
         // `EncoderModel::left_cumulative_and_probability`.
-        let mut left_cumulative =
-            (left_cumulative_float * self.scale).as_() + next_symbol.wrapping_sub(1).as_();
+        // Same clamping as in `EncoderModel::left_cumulative_and_probability`.
+        let free_weight =
+            wrapping_pow2::<Probability>(PRECISION).wrapping_sub(&self.pmf.as_ref().len().as_());
+        let mut left_cumulative = core::cmp::min(
+            (left_cumulative_float * self.scale).as_(),
+            free_weight,
+        ) + next_symbol.wrapping_sub(1).as_();
 
         for &next_probability in &mut iter {
-            let right_cumulative = (right_cumulative_float * self.scale).as_() + next_symbol.as_();
+            let right_cumulative =
+                core::cmp::min((right_cumulative_float * self.scale).as_(), free_weight)
+                    + next_symbol.as_();
             if right_cumulative > quantile {
                 let probability = right_cumulative
                     .wrapping_sub(&left_cumulative)
